@@ -22,10 +22,12 @@ import (
 	"testing/synctest"
 	"time"
 
+	"filippo.io/keygen"
 	"filippo.io/mldsa"
 	"filippo.io/sunlight"
 	"filippo.io/sunlight/internal/ctlog"
 	"github.com/prometheus/client_golang/prometheus"
+	"golang.org/x/crypto/hkdf"
 )
 
 // Outcome is what the scheduler decides for a parked operation.
@@ -184,7 +186,14 @@ var otherKey *ecdsa.PrivateKey
 func keys() (*ecdsa.PrivateKey, *mldsa.PrivateKey) {
 	if sharedKey == nil {
 		var err error
-		sharedKey, err = ecdsa.GenerateKey(elliptic.P256(), rand.Reader)
+		// the log key is derived from a seed the way cmd/sunlight and
+		// cmd/recompute-cache derive it, so that the real recompute-cache binary
+		// can be pointed at a log of this harness (HarnessSeed is its seed file)
+		secret := make([]byte, 32)
+		if _, err := io.ReadFull(hkdf.New(sha256.New, HarnessSeed(), []byte("sunlight"), []byte("ECDSA P-256 log key")), secret); err != nil {
+			panic(err)
+		}
+		sharedKey, err = keygen.ECDSA(elliptic.P256(), secret)
 		if err != nil {
 			panic(err)
 		}
@@ -198,6 +207,12 @@ func keys() (*ecdsa.PrivateKey, *mldsa.PrivateKey) {
 		}
 	}
 	return sharedKey, sharedWKey
+}
+
+// HarnessSeed is the 32-byte secret the harness' log key is derived from.
+func HarnessSeed() []byte {
+	h := sha256.Sum256([]byte("verif harness log seed"))
+	return h[:]
 }
 
 // OtherKey is a second log key, for foreign-key start-up states.
